@@ -221,6 +221,34 @@ type caseIn struct {
 	// NeverDrain (with Drained false): after the cancellation nobody receives from the error channel
 	// until the receiver goroutine is gone (seen in the goroutine dump; such cases run one at a time)
 	NeverDrain bool `json:"never_drain,omitempty"`
+	// Lens (absent, or as long as Script): the length in bytes of the frame a successful read at that
+	// position returns; -1 (and every position when absent) is the 5-byte default frame. Length 0 is a nil
+	// slice at even positions and an empty non-nil slice at odd ones, both with a nil error: a
+	// successfully read frame like any other.
+	Lens []int `json:"lens,omitempty"`
+}
+
+// frameLen returns the scripted length of the frame at position i, -1 for the default frame.
+func frameLen(lens []int, i int) int {
+	if i >= 0 && i < len(lens) {
+		return lens[i]
+	}
+	return -1
+}
+
+// sizedFrame builds the frame of length n read at position i (every byte depends on i and its offset).
+func sizedFrame(i, n int) []byte {
+	if n == 0 {
+		if i%2 == 0 {
+			return nil
+		}
+		return []byte{}
+	}
+	b := make([]byte, n)
+	for k := range b {
+		b[k] = byte(i*7+k*13) ^ 0xa5
+	}
+	return b
 }
 
 type caseOut struct {
@@ -247,6 +275,7 @@ type mock struct {
 	ctx       context.Context
 	cancelFn  context.CancelFunc
 	script    []int
+	lens      []int
 	rerr      []error // read error of position i (nil for frames)
 	perr      []error // processor error of the frame at position i (nil: ok)
 	played    []int
@@ -302,19 +331,31 @@ func (m *mock) ReadPacketData() ([]byte, *gopacket.CaptureInfo, error) {
 		}
 		return data, nil, m.rerr[i]
 	}
+	if n := frameLen(m.lens, i); n >= 0 {
+		// a frame of a scripted length (0, 1, ... bytes): identified by its capture info
+		return sizedFrame(i, n), &gopacket.CaptureInfo{Length: i, CaptureLength: n}, nil
+	}
 	data := []byte{byte(i >> 24), byte(i >> 16), byte(i >> 8), byte(i), 0x55}
 	return data, &gopacket.CaptureInfo{Length: i, CaptureLength: len(data)}, nil
 }
 
 func (m *mock) ProcessPacketData(data []byte, ci *gopacket.CaptureInfo) error {
 	id := 65535
-	if len(data) == 5 && data[4] == 0x55 {
+	sized := false
+	if ci != nil && ci.Length < len(m.script) && m.script[ci.Length] < 128 && frameLen(m.lens, ci.Length) >= 0 {
+		// a frame of a scripted length: the capture info names the position, the bytes must be that frame's
+		id, sized = ci.Length, true
+	} else if len(data) == 5 && data[4] == 0x55 {
 		id = int(data[0])<<24 | int(data[1])<<16 | int(data[2])<<8 | int(data[3])
 	}
 	m.mu.Lock()
 	defer m.mu.Unlock()
 	m.frames = append(m.frames, id)
-	if ci == nil || ci.Length != id {
+	if sized {
+		if !bytes.Equal(data, sizedFrame(id, frameLen(m.lens, id))) {
+			m.badCI = true
+		}
+	} else if ci == nil || ci.Length != id {
 		m.badCI = true
 	}
 	if id < len(m.perr) {
@@ -342,7 +383,7 @@ func runCase(in caseIn) caseOut {
 	out := caseOut{Kind: "case", caseIn: in, Cancel: -2}
 	ctx, cancel := context.WithCancel(context.Background())
 	defer cancel()
-	m := &mock{ctx: ctx, cancelFn: cancel, script: in.Script, cancelReq: in.CancelReq, cancelAt: -2,
+	m := &mock{ctx: ctx, cancelFn: cancel, script: in.Script, lens: in.Lens, cancelReq: in.CancelReq, cancelAt: -2,
 		exhausted: make(chan struct{}), issued: make(chan struct{})}
 	m.rerr = make([]error, len(in.Script))
 	m.perr = make([]error, len(in.Script))
@@ -550,7 +591,7 @@ func probeCap() int {
 	return c
 }
 
-func (g *gen) cases(n int, exhLen int, exhCancelLen int, pairs int, bursts int, runs int) []caseIn {
+func (g *gen) cases(n int, exhLen int, exhCancelLen int, pairs int, bursts int, runs int, nlens int) []caseIn {
 	var cs []caseIn
 	A := len(alphabet)
 	// every single step of the full alphabet
@@ -692,8 +733,68 @@ func (g *gen) cases(n int, exhLen int, exhCancelLen int, pairs int, bursts int, 
 			cs = append(cs, caseIn{Class: "run-of-unknown-errors", Script: s, Drained: true, CancelReq: -2, AsyncUS: -1})
 		}
 	}
+	cs = append(cs, g.frameLengths(nlens)...)
 	for i := range cs {
 		g.uniq(cs[i].Script)
+	}
+	return cs
+}
+
+// frameLengths: successful reads of frames of length 0, 1, 2, ... (and a few larger ones) between
+// faults. The property does not depend on the length of a frame: each of them is a successfully read
+// frame that is processed once, in order, and whose processing error is reported once.
+var smallLens = []int{0, 1, 2, 3, 4, 5, 6, 13, 14, 59, 60, 1514}
+
+func (g *gen) frameLengths(n int) []caseIn {
+	var cs []caseIn
+	if n <= 0 {
+		return cs
+	}
+	A := len(alphabet)
+	// every length alone and after a fault of each strict class, processing ok / failing
+	for _, ln := range smallLens {
+		for v := 0; v < 2; v++ {
+			f := 0
+			if v == 1 {
+				f = 64 + g.r.Intn(A)
+			}
+			cs = append(cs, caseIn{Class: "frame-length-single", Script: []int{f, 0}, Lens: []int{ln, -1}, Drained: true,
+				CancelReq: -2, AsyncUS: -1})
+			for _, cl := range []string{"t", "u"} {
+				cs = append(cs, caseIn{Class: "frame-length-after-fault", Script: []int{0, 128 + g.pick(g.byClass[cl]), f, 0},
+					Lens: []int{-1, -1, ln, g.pick(smallLens[:6])}, Drained: true, CancelReq: -2, AsyncUS: -1})
+			}
+		}
+	}
+	// random scripts whose frames have random lengths, weighted to the smallest ones
+	for i := 0; i < n; i++ {
+		ln := 1 + g.r.Intn(24)
+		s, lens := make([]int, ln), make([]int, ln)
+		for j := range s {
+			s[j] = g.randomStep()
+			lens[j] = -1
+			if s[j] < 128 {
+				switch x := g.r.Intn(10); {
+				case x < 3:
+					lens[j] = 0
+				case x < 5:
+					lens[j] = 1
+				case x < 9:
+					lens[j] = g.pick(smallLens)
+				}
+			}
+		}
+		c := caseIn{Class: "frame-length-random", Script: s, Lens: lens, Drained: g.r.Intn(5) > 0, CancelReq: -2, AsyncUS: -1}
+		switch x := g.r.Intn(100); {
+		case x < 50:
+		case x < 85:
+			c.CancelReq = g.r.Intn(ln)
+			c.Class = "frame-length-random-cancel"
+		default:
+			c.AsyncUS = g.r.Intn(400)
+			c.Class = "frame-length-random-async"
+		}
+		cs = append(cs, c)
 	}
 	return cs
 }
@@ -776,6 +877,7 @@ func main() {
 	corpus := flag.String("corpus", "", "directory of JSON case inputs that are run first")
 	replay := flag.String("replay", "", "JSON file holding one case input: run it and print the observation")
 	runs := flag.Int("runs", 2, "variants of each long run of unknown errors (cap-1, cap, cap+1, 2.5 cap)")
+	nlens := flag.Int("lens", 300, "random scripts whose frames have scripted lengths 0, 1, 2, ... (0: no frame-length stage)")
 	source := flag.Bool("source", false, "drive the real afpacket.Source on lo of a private network namespace")
 	srcInner := flag.Bool("realsrc-inner", false, "internal: the real-source scenarios, inside the namespace")
 	flag.IntVar(&neverDrainWaitMS, "goneWait", 3000, "how long a cancelled receiver with a full, unread error channel is given to end, ms")
@@ -800,7 +902,7 @@ func main() {
 		}
 		cs = []caseIn{in}
 	} else {
-		cs = append(readCorpus(*corpus), newGen(*seed).cases(*n, *exh, *exhc, *pairs, *bursts, *runs)...)
+		cs = append(readCorpus(*corpus), newGen(*seed).cases(*n, *exh, *exhc, *pairs, *bursts, *runs, *nlens)...)
 	}
 	var srcRows []srcOut
 	if *source && *replay == "" {
